@@ -12,6 +12,15 @@ from .proxies import SBool, SInt, SReal, SBV, zbool, trunc_int, to_real, fresh, 
 from . import arrays as A
 
 
+_SQRT = []
+
+
+def sqrt_uf():
+    if not _SQRT:
+        _SQRT.append(z3.Function("SQRT", z3.RealSort(), z3.RealSort()))
+    return _SQRT[0]
+
+
 def _sym(x):
     return isinstance(x, (SBool, SInt, SReal, SBV, A.SArr, A.SArr2)) or hasattr(x, "_pyvc_symbolic")
 
@@ -137,7 +146,9 @@ class NumpyShim:
 
     def abs(self, x):
         return abs(x)
-    absolute = abs
+
+    def absolute(self, x):
+        return abs(x)
 
     def bitwise_and(self, a, b):
         return a & b
@@ -202,9 +213,46 @@ class NumpyShim:
         return _np.roll(x, shift)
 
     def sqrt(self, x):
-        if _sym(x):
-            raise Unsupported("sqrt on symbolic value (use a contract-level UF)")
+        """T-sqrt: uninterpreted SQRT with  x >= 0 => SQRT(x) >= 0,  (SQRT(x) > 0 <=> x > 0)"""
+        if isinstance(x, A.SArr):
+            return x._ew(0, lambda a, b: self.sqrt(a))
+        if isinstance(x, (SReal, SInt)):
+            eng().assumptions_used.add("T-sqrt: SQRT uninterpreted with sign axioms (x>=0 => SQRT(x)>=0, SQRT(x)>0 <=> x>0)")
+            xz = to_real(x).z
+            f = sqrt_uf()
+            r = f(xz)
+            if not eng().in_spec:
+                pass
+            eng().pc.append(z3.Implies(xz >= 0, z3.And(r >= 0, (r > 0) == (xz > 0))))
+            return SReal(r)
         return _np.sqrt(x)
+
+    def std(self, x, *a, **k):
+        if isinstance(x, A.SArr):
+            eng().assumptions_used.add("T-std: numpy.std(a) is some non-negative real (STD uninterpreted)")
+            f = z3.Function("STD", z3.ArraySort(z3.IntSort(), z3.RealSort()), z3.IntSort(), z3.RealSort())
+            r = f(x.term(), x.n)
+            eng().pc.append(r >= 0)
+            return SReal(r)
+        return _np.std(x, *a, **k)
+
+    def maximum(self, a, b):
+        if _anysym(a, b):
+            arr = a if isinstance(a, A.SArr) else b
+            other = b if arr is a else a
+            if isinstance(arr, A.SArr):
+                return arr._ew(other, lambda x, y: ite(x >= y, x, y))
+            return ite(a >= b, a, b)
+        return _np.maximum(a, b)
+
+    def minimum(self, a, b):
+        if _anysym(a, b):
+            arr = a if isinstance(a, A.SArr) else b
+            other = b if arr is a else a
+            if isinstance(arr, A.SArr):
+                return arr._ew(other, lambda x, y: ite(x <= y, x, y))
+            return ite(a <= b, a, b)
+        return _np.minimum(a, b)
 
     def sum(self, x, axis=None):
         if isinstance(x, A.SArr):
